@@ -5,6 +5,7 @@ CONSTANTS
   FetchMax = 2
   HWFallback = FALSE
   ElectAlive = TRUE
+  AllowLag = FALSE
   ElectDown = TRUE
   MaxMsgs = 2
   MaxElect = 2
